@@ -49,26 +49,31 @@ func checkC18(c *core.Ctx, r *core.Report) {
 	// the chunk offset and the caller's buffer, found by their roles rather than by parameter position: the
 	// offset is the value V such that the 4-byte reader is called with V and with V + constant (magic at V,
 	// checksum and length at fixed distances); the buffer is the slice the CRC is computed over (set below)
+	// A header word is a 32-bit value read from the file at a known place: the result of the 4-byte reader called
+	// with V / V + K / 0, or the decoding of bytes [K, K+4) of a header block that was read at V in one piece
+	// (hdrWord below).  The chunk offset is the base V at which the most header words are read.
+	hw := &hdrWords{c: c, readU32: readU32, osReadAt: osReadAt, pkg: core.FnPkgPath(readChunk)}
 	var offVal ssa.Value
 	{
-		var cands []ssa.Value
-		for _, call := range callsTo(readChunk, readU32) {
-			if _, isK := core.ConstIntValue(call.Call.Args[1]); !isK {
-				cands = append(cands, call.Call.Args[1])
-			}
-		}
-		best := 0
-		for _, v := range cands {
-			n := 0
-			for _, w := range cands {
-				if bo, ok := w.(*ssa.BinOp); ok && bo.Op == token.ADD && bo.X == v {
-					if _, isK := core.ConstIntValue(bo.Y); isK {
-						n++
+		distinct := map[ssa.Value]map[int64]bool{}
+		for _, b := range readChunk.Blocks {
+			for _, in := range b.Instrs {
+				v, ok := in.(ssa.Value)
+				if !ok {
+					continue
+				}
+				if base, off, ok := hw.word(v); ok && base != nil {
+					if distinct[base] == nil {
+						distinct[base] = map[int64]bool{}
 					}
+					distinct[base][off] = true
 				}
 			}
-			if n > best {
-				best, offVal = n, v
+		}
+		best := 1
+		for base, offs := range distinct {
+			if len(offs) > best {
+				best, offVal = len(offs), base
 			}
 		}
 	}
@@ -104,13 +109,11 @@ func checkC18(c *core.Ctx, r *core.Report) {
 			eq, ne = ne, eq
 		}
 		if k, ok := core.ConstIntValue(bo.Y); ok && k == magicConst {
-			if ex, ok := bo.X.(*ssa.Extract); ok {
-				if call, ok := ex.Tuple.(*ssa.Call); ok && core.IsCallTo(call, readU32) {
-					if off, isConst := core.ConstIntValue(call.Call.Args[1]); isConst && off == 0 {
-						legacyIfs = append(legacyIfs, ifi)
-					} else if call.Call.Args[1] == offVal {
-						magicIf, matchSucc, mismatchSucc = ifi, eq, ne
-					}
+			if base, off, ok := hw.word(bo.X); ok {
+				if base == nil && off == 0 {
+					legacyIfs = append(legacyIfs, ifi)
+				} else if base == offVal && off == 0 {
+					magicIf, matchSucc, mismatchSucc = ifi, eq, ne
 				}
 			}
 			continue
@@ -147,14 +150,8 @@ func checkC18(c *core.Ctx, r *core.Report) {
 		r.Check(okOver, "GUARD", name+":crc-over-bytes-read", c.Pos(crcCall.Pos()), "CRC computed over buf[:n], n = bytes the data ReadAt placed into buf", "the CRC is not computed over exactly the bytes that were read into the caller's buffer")
 		// stored checksum read from offset+checksumOffset
 		okStored := false
-		if ex, ok := crcOther.(*ssa.Extract); ok && ex.Index == 0 {
-			if call, ok := ex.Tuple.(*ssa.Call); ok && core.IsCallTo(call, readU32) {
-				if add, ok := call.Call.Args[1].(*ssa.BinOp); ok && add.Op == token.ADD && add.X == offVal {
-					if k, ok := core.ConstIntValue(add.Y); ok && k == c.ConstVal(pkgUtils, "checksumOffset") {
-						okStored = true
-					}
-				}
-			}
+		if base, off, ok := hw.word(crcOther); ok && base == offVal && off == c.ConstVal(pkgUtils, "checksumOffset") {
+			okStored = true
 		}
 		r.Check(okStored, "GUARD", name+":crc-compared-with-stored", c.Pos(crcIf.Pos()), "compared with the word read at offset+checksumOffset", "the computed CRC is not compared with the checksum stored in the chunk header")
 		// every return in the magic-matched region that may carry bytes is under the CRC-equal edge
@@ -193,12 +190,10 @@ func checkC18(c *core.Ctx, r *core.Report) {
 				if !ok || bo.Op != token.GTR || idom.Succs[1] != b {
 					continue
 				}
-				if ex, ok := bo.X.(*ssa.Extract); ok {
-					if call, ok := ex.Tuple.(*ssa.Call); ok && core.IsCallTo(call, readU32) {
-						if lenCall, ok := core.Unwrap(bo.Y).(*ssa.Call); ok {
-							if bi, ok := lenCall.Call.Value.(*ssa.Builtin); ok && bi.Name() == "len" && lenCall.Call.Args[0] == ssa.Value(bufParam) {
-								okLen = true
-							}
+				if _, _, isWord := hw.word(bo.X); isWord {
+					if lenCall, ok := core.Unwrap(bo.Y).(*ssa.Call); ok {
+						if bi, ok := lenCall.Call.Value.(*ssa.Builtin); ok && bi.Name() == "len" && lenCall.Call.Args[0] == ssa.Value(bufParam) {
+							okLen = true
 						}
 					}
 				}
@@ -224,12 +219,8 @@ func checkC18(c *core.Ctx, r *core.Report) {
 					continue
 				}
 				if k, ok := core.ConstIntValue(bo.Y); ok && k == magicConst {
-					if ex, ok := bo.X.(*ssa.Extract); ok {
-						if call, ok := ex.Tuple.(*ssa.Call); ok && core.IsCallTo(call, readU32) {
-							if off, isConst := core.ConstIntValue(call.Call.Args[1]); isConst && off == 0 {
-								firstWordIfs = append(firstWordIfs, ifi)
-							}
-						}
+					if base, off, ok := hw.word(bo.X); ok && base == nil && off == 0 {
+						firstWordIfs = append(firstWordIfs, ifi)
 					}
 				}
 			}
@@ -603,4 +594,126 @@ func typeHolds(t, target types.Type, depth int) bool {
 		return u.Empty()
 	}
 	return false
+}
+
+// hdrWords recognises the 32-bit words that the checksum file reader takes from known places of the file.
+type hdrWords struct {
+	c        *core.Ctx
+	readU32  types.Object
+	osReadAt types.Object
+	pkg      string
+}
+
+// word: v is the 32-bit word at file position base+off (base == nil: the start of the file).
+//   - the value result of the 4-byte reader called with 0, V or V + K
+//   - a little-endian decode of bytes [K, K+4) of a header block read in one piece at V: the block is a local
+//     array filled by (*os.File).ReadAt(block[:], V) in this function, or handed back by a function of the
+//     package that does so with the offset it was given
+func (h *hdrWords) word(v ssa.Value) (base ssa.Value, off int64, ok bool) {
+	if ex, isEx := v.(*ssa.Extract); isEx && ex.Index == 0 {
+		if call, isCall := ex.Tuple.(*ssa.Call); isCall && core.IsCallTo(call, h.readU32) {
+			pos := call.Call.Args[len(call.Call.Args)-1]
+			if k, isK := core.ConstIntValue(pos); isK {
+				if k == 0 {
+					return nil, 0, true
+				}
+				return nil, 0, false
+			}
+			if add, isAdd := pos.(*ssa.BinOp); isAdd && add.Op == token.ADD {
+				if k, isK := core.ConstIntValue(add.Y); isK {
+					return add.X, k, true
+				}
+			}
+			return pos, 0, true
+		}
+		return nil, 0, false
+	}
+	call, isCall := v.(*ssa.Call)
+	if !isCall || len(call.Call.Args) == 0 {
+		return nil, 0, false
+	}
+	f := core.CalleeFunc(call)
+	if f == nil || !(f.Name() == "BytesToUint32LittleEndian" || f.Name() == "Uint32") {
+		return nil, 0, false
+	}
+	sl, isSl := call.Call.Args[len(call.Call.Args)-1].(*ssa.Slice)
+	if !isSl {
+		return nil, 0, false
+	}
+	var lo int64
+	if sl.Low != nil {
+		k, isK := core.ConstIntValue(sl.Low)
+		if !isK {
+			return nil, 0, false
+		}
+		lo = k
+	}
+	if sl.High != nil {
+		if k, isK := core.ConstIntValue(sl.High); !isK || k != lo+4 {
+			return nil, 0, false
+		}
+	}
+	al, isAl := sl.X.(*ssa.Alloc)
+	if !isAl || al.Referrers() == nil {
+		return nil, 0, false
+	}
+	fn := al.Parent()
+	// filled in this function by ReadAt(block[:], V)
+	for _, ci := range core.CallsIn(fn) {
+		if !core.IsCallTo(ci, h.osReadAt) || len(ci.Common().Args) < 3 {
+			continue
+		}
+		if s2, ok := ci.Common().Args[1].(*ssa.Slice); ok && s2.X == ssa.Value(al) {
+			return ci.Common().Args[2], lo, true
+		}
+	}
+	// or stored from the result of a header-reading helper of the package
+	for _, rf := range *al.Referrers() {
+		st, isSt := rf.(*ssa.Store)
+		if !isSt || st.Addr != ssa.Value(al) {
+			continue
+		}
+		src := st.Val
+		idx := 0
+		if ex, isEx := src.(*ssa.Extract); isEx {
+			src, idx = ex.Tuple, ex.Index
+		}
+		hc, isCall := src.(*ssa.Call)
+		if !isCall {
+			continue
+		}
+		helper := hc.Call.StaticCallee()
+		if helper == nil || helper.Blocks == nil || core.FnPkgPath(helper) != h.pkg {
+			continue
+		}
+		// the helper returns (as result idx) a local block it filled with ReadAt(block[:], <its parameter>)
+		for _, ret := range core.Returns(helper) {
+			if idx >= len(ret.Results) {
+				continue
+			}
+			ld, isLd := core.RetResult(ret, idx).(*ssa.UnOp)
+			if !isLd {
+				continue
+			}
+			blk, isAl := ld.X.(*ssa.Alloc)
+			if !isAl {
+				continue
+			}
+			for _, ci := range core.CallsIn(helper) {
+				if !core.IsCallTo(ci, h.osReadAt) || len(ci.Common().Args) < 3 {
+					continue
+				}
+				if s2, ok := ci.Common().Args[1].(*ssa.Slice); ok && s2.X == ssa.Value(blk) {
+					if par, isPar := ci.Common().Args[2].(*ssa.Parameter); isPar {
+						for i, q := range helper.Params {
+							if q == par && i < len(hc.Call.Args) {
+								return hc.Call.Args[i], lo, true
+							}
+						}
+					}
+				}
+			}
+		}
+	}
+	return nil, 0, false
 }
